@@ -117,20 +117,23 @@ type monitor struct {
 }
 
 type runResult struct {
-	err        error
-	output     string
-	msgs       []recMsg
-	done       *doneRecord
-	watchdog   string
-	startErr   error
-	tokStart   string
-	tokOK      string
-	tokFail    string
-	cancelled  bool // the run was cancelled while the child was (by construction) still running
-	cancelHow  string
-	reaped     bool  // Start+Stop: the child no longer exists after Stop() (it was waited for)
-	stopCalls  int64 // Start+Stop: number of Stop() calls needed
-	scriptPath string
+	err      error
+	output   string
+	msgs     []recMsg
+	done     *doneRecord
+	watchdog string
+	// spuriousCancel: a run of the same Subprocess value started straight after the previous one had ended reported this
+	// cancellation although nobody cancelled anything
+	spuriousCancel string
+	startErr       error
+	tokStart       string
+	tokOK          string
+	tokFail        string
+	cancelled      bool // the run was cancelled while the child was (by construction) still running
+	cancelHow      string
+	reaped         bool  // Start+Stop: the child no longer exists after Stop() (it was waited for)
+	stopCalls      int64 // Start+Stop: number of Stop() calls needed
+	scriptPath     string
 }
 
 const caseWatchdog = 90 * time.Second
@@ -210,6 +213,7 @@ func (m *monitor) run(cs *caseSpec) *runResult {
 	var runErr, startErr error
 	var cancelled, reaped atomic.Bool
 	var stopCalls atomic.Int64
+	var spurious atomic.Value // text of the error of a run which reported a cancellation nobody asked for
 	var p *subprocess.Subprocess
 	go func() {
 		defer close(finished)
@@ -230,6 +234,12 @@ func (m *monitor) run(cs *caseSpec) *runResult {
 			p, startErr = subprocess.New(ctx, rec, res.tokStart, res.tokOK, res.tokFail, m.exe, args...)
 			if startErr == nil {
 				_ = p.Execute()
+				// ... and once more straight after the first run has ended: nobody cancels that run, it must not report a cancellation
+				for k := 0; k < 6; k++ {
+					if e2 := p.Execute(); e2 != nil && isContextKind(e2) {
+						spurious.Store(e2.Error())
+					}
+				}
 				rec.reset()
 				_ = os.Remove(donePath)
 				runErr = p.Execute()
@@ -328,6 +338,9 @@ func (m *monitor) run(cs *caseSpec) *runResult {
 	res.cancelled = cancelled.Load()
 	res.reaped = reaped.Load()
 	res.stopCalls = stopCalls.Load()
+	if v, ok := spurious.Load().(string); ok {
+		res.spuriousCancel = v
+	}
 	res.cancelHow = cs.Mode
 	res.msgs = rec.snapshot()
 	res.done = readDone(donePath)
@@ -478,6 +491,14 @@ func (m *monitor) judge(cs *caseSpec, res *runResult) {
 	if res.startErr != nil {
 		r.Inconclusive("could not set up / start the subprocess: " + res.startErr.Error())
 		return
+	}
+	if cs.Mode == "new-execute-again" {
+		r.Obs("runs_started_straight_after_the_previous_run_of_the_same_value", 1)
+		if res.spuriousCancel != "" {
+			r.Violation(vrun.Sig{"ep": "Execute", "pre": "straight after the previous run of the same value", "effect": "cancellation reported although nobody cancelled"},
+				fmt.Sprintf("Execute() of a Subprocess value whose previous run had just ended returned %q: nobody cancelled it (context alive, no Cancel/Stop)", res.spuriousCancel),
+				map[string]any{"case": cs.Name, "mode": cs.Mode, "returned_error": res.spuriousCancel})
+		}
 	}
 	if cs.Mode == "start" {
 		if !res.reaped {
